@@ -91,3 +91,36 @@ def projected_J(J, vols, pShapes):
         Mm = P.T @ onp.diag(vols[e]) @ P
         out[e] = P @ onp.linalg.solve(Mm, rhs)
     return out
+
+
+def min_relative_eigen_gap(U, coords, conns, shapes, shapeGrads, vols, axisym, pShapes=None, inelastic=None):
+    """Smallest relative gap between the eigenvalues of Ce = Fe^T Fe, Fe = F Fi^-1, over all quadrature points and all
+    inelastic distortions Fi handed in (list of (nE,nq,3,3) arrays; None -> identity).  F is the 3-D deformation gradient
+    the chosen 2-D option produces (plane strain: F33 = 1; axisymmetric: F33 = 1 + u_r/r; pressure projection: in-plane
+    part scaled by sqrt(JBar/J)).  Used only to keep random draws away from the thin set (nearly) repeated stretches, where
+    the eigenvector-based tensor logarithm is subject to the known findings D8/D12 of C12/C10."""
+    U = onp.asarray(U, dtype=float)
+    conns = onp.asarray(conns, dtype=int)
+    Ue = U[conns]
+    G = onp.einsum("eai,eqaj->eqij", Ue, onp.asarray(shapeGrads, dtype=float))
+    F2 = G + onp.eye(2)
+    if pShapes is not None:
+        J = F2[..., 0, 0] * F2[..., 1, 1] - F2[..., 0, 1] * F2[..., 1, 0]
+        JB = projected_J(J, vols, pShapes)
+        F2 = F2 * onp.sqrt(JB / J)[..., None, None]
+    F3 = onp.zeros(F2.shape[:2] + (3, 3))
+    F3[..., :2, :2] = F2
+    F3[..., 2, 2] = 1.0
+    if axisym:
+        Xe = onp.asarray(coords, dtype=float)[conns]
+        r = onp.einsum("eqa,ea->eq", onp.asarray(shapes, dtype=float), Xe[..., 0])
+        ur = onp.einsum("eqa,ea->eq", onp.asarray(shapes, dtype=float), Ue[..., 0])
+        F3[..., 2, 2] = 1.0 + ur / r
+    worst = onp.inf
+    for Fi in (inelastic or [None]):
+        Fe = F3 if Fi is None else F3 @ onp.linalg.inv(onp.asarray(Fi, dtype=float))
+        Ce = onp.swapaxes(Fe, -1, -2) @ Fe
+        ev = onp.linalg.eigvalsh(Ce)
+        gap = onp.min(onp.diff(ev, axis=-1), axis=-1) / ev[..., -1]
+        worst = min(worst, float(gap.min()))
+    return worst
